@@ -123,6 +123,79 @@ Theorem C16_attach_by_seqid : forall add seqs fs, m_attach add seqs fs = attach_
 Proof. exact attach_set_spec. Qed.
 Print Assumptions C16_attach_by_seqid.
 
+(* todict: keys in order of first occurrence, each bound to the LAST element carrying that id *)
+Theorem C16_todict_spec : forall objs,
+  map fst (m_todict objs) = first_occ (map (mget k_id) objs) /\
+  (forall k, pv_assoc k (m_todict objs) = last_with k objs) /\
+  (forall k x, last_with k (objs ++ [x]) = if pv_eqb (mget k_id x) k then Some x else last_with k objs).
+Proof. exact (fun objs => conj (proj1 (todict_spec objs)) (conj (proj2 (todict_spec objs)) (fun k x => last_with_snoc k objs x))). Qed.
+Print Assumptions C16_todict_spec.
+
+(* element equality (Feature.__eq__ / BioSeq.__eq__) is an equivalence relation on elements whose metadata is a dict,
+   and membership respects it -- so "set semantics under element equality" is meaningful *)
+Theorem C16_elem_eq_equivalence :
+  (forall x, meta_ok x = true -> elem_eqb x x = true) /\
+  (forall x y, meta_ok x = true -> meta_ok y = true -> elem_eqb x y = true -> elem_eqb y x = true) /\
+  (forall x y z, elem_eqb x y = true -> elem_eqb y z = true -> elem_eqb x z = true).
+Proof. exact elem_eqb_equiv. Qed.
+Print Assumptions C16_elem_eq_equivalence.
+
+Theorem C16_mem_respects_eq : forall x y l, elem_eqb x y = true -> mem y l = true -> mem x l = true.
+Proof. exact mem_respects. Qed.
+Print Assumptions C16_mem_respects_eq.
+
+Theorem C16_wf_elements_have_dict_meta : forall f x, elem_ok f x = true -> meta_ok x = true.
+Proof. exact elem_ok_meta_ok. Qed.
+Print Assumptions C16_wf_elements_have_dict_meta.
+
+(* sort with a single key (the documented defaults are of this form): sorted by that key, ties in input order *)
+Theorem C16_sort_one_key : forall k r objs,
+  m_sort (KsTuple [k]) r objs = isort (dir r (key_le k)) objs /\
+  StronglySorted (fun x y => dir r (key_le k) x y = true) (m_sort (KsTuple [k]) r objs) /\
+  (forall a, filter (eqv (dir r (key_le k)) a) (m_sort (KsTuple [k]) r objs) = filter (eqv (dir r (key_le k)) a) objs).
+Proof. exact sort_one_key. Qed.
+Print Assumptions C16_sort_one_key.
+
+(* the default orders: sequences by id; features by seqid, then by (range start, range stop) *)
+Theorem C16_sort_default_orders : forall x y,
+  key_le (KMeta k_id) x y = negb (pv_ltb (mget k_id y) (mget k_id x)) /\
+  (efeat x = true -> efeat y = true ->
+   key_le KDefault x y =
+   negb (if pv_eqb (mget k_seqid y) (mget k_seqid x) then rng_ltb y x else pv_ltb (mget k_seqid y) (mget k_seqid x))) /\
+  rng_ltb x y = (Z.ltb (fst (rng x)) (fst (rng y)) || (Z.eqb (fst (rng x)) (fst (rng y)) && Z.ltb (snd (rng x)) (snd (rng y)))) /\
+  m_sort (KsOne KDefault) false = m_sort (KsTuple [KDefault]) false.
+Proof. exact (fun x y => conj (default_seq_order x y) (conj (default_feature_order x y) (conj (rng_ltb_meaning x y) eq_refl))). Qed.
+Print Assumptions C16_sort_default_orders.
+
+(* reflected operators (plain list on the left): membership as coded *)
+Theorem C16_setops_reflected : forall a b x,
+  (In x (m_setop 4 a b) <-> In x b /\ mem x a = true) /\
+  (In x (m_setop 5 a b) <-> In x b \/ (In x a /\ mem x b = false)) /\
+  (In x (m_setop 6 a b) <-> In x a /\ mem x b = false) /\
+  (In x (m_setop 7 a b) <-> In x (op_or b a) /\ mem x (op_and b a) = false).
+Proof. exact setops_reflected. Qed.
+Print Assumptions C16_setops_reflected.
+
+(* every group of a groupby result is non-empty *)
+Theorem C16_groupby_nonempty_groups : forall (f : elem -> pv) objs v, In v (first_occ (map f objs)) ->
+  filter (fun x => pv_eqb (f x) v) objs <> [].
+Proof. exact group_nonempty. Qed.
+Print Assumptions C16_groupby_nonempty_groups.
+
+(* what "matches" means: equality of the lower-cased type with the lower-cased request(s) *)
+Theorem C16_matches_meaning : forall x s, mget k_type x = PStr s ->
+  (forall u, matches (TOne u) x = str_eqb (lower s) (lower u)) /\
+  (forall l, matches (TMany l) x = existsb (fun u => str_eqb (lower s) (lower u)) l).
+Proof. exact matches_meaning. Qed.
+Print Assumptions C16_matches_meaning.
+
+(* in a history only the in-place forms change the collection *)
+Theorem C16_noninplace_steps_pure : forall cur conds ks t code b, N.ltb code 8 = true ->
+  step_next (HFilter false conds) cur = cur /\ step_next (HGroup ks) cur = cur /\ step_next (HSelect t) cur = cur /\
+  step_next (HGet t) cur = cur /\ step_next HTodict cur = cur /\ step_next (HSetop code b) cur = cur.
+Proof. exact noninplace_pure. Qed.
+Print Assumptions C16_noninplace_steps_pure.
+
 (* non-vacuity *)
 Example C16_witness_filter :
   let xs := [Ft 0 [(0, 3)%Z] [(k_type, PStr (bs "CDS"%bs)); (bs "n"%bs, PInt 2)]; Ft 1 [(1, 9)%Z] [(bs "n"%bs, PInt 0)];
@@ -155,10 +228,12 @@ Example C16_witness_groupby_select_attach :
             = [VS (bs "CDS"%bs); VNone; VS (bs "cds"%bs); VS (bs "gene"%bs)]
   | Err _ => False
   end /\
+  map (fun kx => (vpv (fst kx), eidx (snd kx))) (m_todict (map (fun x => with_meta x ((k_id, PInt (Z.of_nat (eidx x mod 2))) :: emeta x)) xs))
+    = [(VI 0, 2%nat); (VI 1, 3%nat)] /\
   wf_C16 (RSelect xs (TOne (bs "Cds"%bs))) = true /\ forallb type_ok xs = true /\
   map eidx (filter (matches (TOne (bs "Cds"%bs))) xs) = [0; 2]%nat /\
   wf_C16 (RAttach false [(PStr (bs "s1"%bs), []); (PStr (bs "s2"%bs), []); (PStr (bs "s1"%bs), [])]
             xs) = true /\
   map (map eidx) (attach_spec false [] [(PStr (bs "s1"%bs), []); (PStr (bs "s2"%bs), []); (PStr (bs "s1"%bs), [])]
                     xs) = [[0; 3]; [2]; []]%nat.
-Proof. exact (conj eq_refl (conj eq_refl (conj (conj eq_refl eq_refl) (conj eq_refl (conj eq_refl (conj eq_refl (conj eq_refl eq_refl))))))). Qed.
+Proof. exact (conj eq_refl (conj eq_refl (conj (conj eq_refl eq_refl) (conj eq_refl (conj eq_refl (conj eq_refl (conj eq_refl (conj eq_refl eq_refl)))))))). Qed.
